@@ -569,6 +569,9 @@ func runShard(c *Check, env *Env, opts RunOpts, base string, shard, of, n int, a
 	if perCase == 0 {
 		perCase = 120 * time.Second
 	}
+	if env.Thorough() {
+		perCase *= 4 // thorough runs share the machine with other thorough runs; the watchdog is never a verdict anyway
+	}
 	done := map[int]bool{}
 	for attempt := 0; attempt < 200; attempt++ {
 		os.Remove(journal)
